@@ -36,9 +36,10 @@ func init() {
 		rule{name: "T-op1", run: ruleTOp},
 		rule{name: "T-gate", run: ruleTGate},
 		rule{name: "P-nilsrc", run: ruleNilSrc},
+		rule{name: "S-reset", run: ruleSReset},
+		rule{name: "S-sub", run: ruleSSubGrid},
 		rule{name: "P-exec", run: rulePExec},
 		rule{name: "TERM", run: ruleTermExec},
-		rule{name: "S-reset", run: ruleSReset},
 		rule{name: "S-own", run: ruleSOwn},
 	)
 	register("C09", "P-dec", nil, rule{name: "P-dec", run: rulePDec}, rule{name: "ACC", run: ruleACC}, rule{name: "L-fresh", run: ruleLFresh})
